@@ -998,12 +998,14 @@ where
         if self.state != CollectorState::InPixelData {
             // skip until we reach the pixel data
 
+            let mut native = false;
             self.skip_until(|token| {
                 match token {
                     // catch either native pixel data
                     LazyDataToken::ElementHeader(header)
                         if header.tag == tags::PIXEL_DATA && header.length().is_defined() =>
                     {
+                        native = true;
                         true
                     }
                     // or start of pixel data sequencce
@@ -1013,6 +1015,12 @@ where
             })?;
 
             self.state = CollectorState::InPixelData;
+
+            if native {
+                // native pixel data, no offset table:
+                // leave the value in place for `read_next_fragment`
+                return Ok(None);
+            }
         }
 
         let parser = if !self.source.has_parser() {
